@@ -53,6 +53,12 @@ func execC16(c Case) string {
 	case "blk": // blk <ctor> <ntx> <salt> <tokens> <trailing> <script>
 		ntx, salt := atoi(a[1]), uint32(atou(a[2]))
 		msg := synthBlock(ntx, salt, a[3] == "1")
+		if a[0] == "raw" {
+			// the block arrives as raw bytes (a[4]) that need not be what the wire package would write for the message
+			// it parses them into; the reference values (EXT) are those of the parsed message
+			msg = &wire.MsgBlock{}
+			must(msg.Deserialize(bytes.NewReader(unhx(a[4]))))
+		}
 		var buf bytes.Buffer
 		must(msg.Serialize(&buf))
 		ser := append([]byte{}, buf.Bytes()...)
@@ -63,7 +69,11 @@ func execC16(c Case) string {
 			txh = append(txh, hx(h[:]))
 		}
 		var m2 wire.MsgBlock
-		locs, err := m2.DeserializeTxLoc(bytes.NewBuffer(ser))
+		locSrc := ser
+		if a[0] == "raw" {
+			locSrc = unhx(a[4]) // TxLoc parses the bytes the block holds: for this constructor the raw input
+		}
+		locs, err := m2.DeserializeTxLoc(bytes.NewBuffer(locSrc))
 		must(err)
 		ls := []string{}
 		for _, l := range locs {
@@ -86,6 +96,10 @@ func execC16(c Case) string {
 			b = bchutil.NewBlockFromBlockAndBytes(msg, ser)
 		case "msgbytesbad": // the caller hands over bytes that are NOT the serialisation of the message (a[4])
 			b = bchutil.NewBlockFromBlockAndBytes(msg, trailing)
+		case "raw":
+			b, err = bchutil.NewBlockFromBytes(trailing)
+			must(err)
+			msg = b.MsgBlock() // identity checks of the wrappers refer to the block's own message
 		default:
 			panic("harness: ctor")
 		}
@@ -289,6 +303,31 @@ func genC16(r *Rng, tier string, emit func(Case)) {
 		var ob bytes.Buffer
 		must(synthBlock(ntx+1, uint32(salt)+1, false).Serialize(&ob))
 		e("blk", "msgbytesbad", "msgbytesbad", itoa(ntx), u64s(salt), "0", hx(ob.Bytes()), "S,B,T0,H0,S")
+	}
+	// raw block bytes written by hand: one transaction whose output "script" field starts with the CashToken prefix
+	// byte 0xef. Category all-zero (the wire package parses it as token data and does NOT write it back), category
+	// non-zero (round-trips), and 0xef followed by something that is no token prefix (kept as a plain script)
+	for _, cat := range []byte{0x00, 0x01, 0xff} {
+		for _, tail := range [][]byte{{0x10, 0x01, 0x51}, {0x10, 0xfd, 0x00, 0x01, 0x6a}, {0x51}} {
+			script := append([]byte{0xef}, bytes.Repeat([]byte{cat}, 32)...)
+			script = append(script, tail...)
+			var raw bytes.Buffer
+			must((&wire.BlockHeader{Nonce: uint32(cat)}).Serialize(&raw))
+			raw.WriteByte(1)                           // one transaction
+			raw.Write([]byte{1, 0, 0, 0, 1})           // version, one input
+			raw.Write(make([]byte, 32))                // previous txid
+			raw.Write([]byte{0xff, 0xff, 0xff, 0xff, 1, 0x51, 0xff, 0xff, 0xff, 0xff}) // index, script, sequence
+			raw.WriteByte(1)                           // one output
+			raw.Write(make([]byte, 8))                 // value
+			raw.WriteByte(byte(len(script)))
+			raw.Write(script)
+			raw.Write([]byte{0, 0, 0, 0}) // lock time
+			var probe wire.MsgBlock
+			if probe.Deserialize(bytes.NewReader(raw.Bytes())) != nil {
+				continue // not a block for the wire package: nothing to wrap
+			}
+			e("blk", "rawtoken", "raw", "1", "0", "0", hx(raw.Bytes()), "S,L,B,T0,H0,S,A,L")
+		}
 	}
 	ctors := []string{"msg", "bytes", "reader", "msgbytes"}
 	for i := 0; i < n; i++ {
